@@ -7,6 +7,7 @@ from hypothesis import strategies as st
 from vf.harness import Check
 from vf.gen import lens as GL
 from vf.gen.build import build
+from vf.gen.edit import edit_strategy, apply_edit
 
 EPS = [10 ** (-1 - 0.5 * i) for i in range(7)]     # 1e-1 ... 1e-4
 
@@ -16,7 +17,8 @@ class C05(Check):
     title = 'Real rays converge to the paraxial prediction as aperture and field vanish'
     rule = ('cases: generated centred lenses (spheres, conics, even aspheres without r^2 term, planes, mirrors; finite '
             'and infinite object; all aperture/field kinds) x the geometric sequence eps = 1e-1 ... 1e-4 (7 points), for '
-            'marginal-type rays (Hy=0, Py=eps) and chief-type rays (Hy=eps, P=0), at every surface. Oracle: ABCD reference '
+            'marginal-type rays (Hy=0, Py=eps) and chief-type rays (Hy=eps, P=0), at every surface; optionally one edit '
+            '(index / radius / thickness / conic / stop) of the same Optic, then the whole sequence again. Oracle: ABCD reference '
             'marginal/chief rays; delta(eps) = real/s(eps) - reference must satisfy |delta| <= 4 K eps^2 + floor with K '
             'from the two largest eps. Non-trivial: >=2 powered surfaces and |delta| at eps=0.1 above 1e-8 (there is '
             'aberration to converge away from). Distinct = distinct spec hashes.')
@@ -26,10 +28,10 @@ class C05(Check):
                    'round-off floor (1e-12*scale + 1e-9*[iterative surface])/eps']
 
     def budget(self, tier):
-        return (60, 8) if tier == 'quick' else (1500, 16)
+        return (150, 8) if tier == 'quick' else (1500, 16)
 
     def strategy(self, tier):
-        return GL.lens_spec('centred').map(lambda s: dict(spec=s))
+        return st.fixed_dictionaries(dict(spec=GL.lens_spec('centred'), edit=edit_strategy()))
 
     def describe(self, case):
         s = case['spec']
@@ -41,6 +43,16 @@ class C05(Check):
         spec = case['spec']
         out.cls(*GL.spec_classes(spec))
         o = build(spec)
+        self.core(out, o, spec)
+        ed = case.get('edit')
+        if ed:
+            # history on one Optic: trace, edit through the public setters, trace again against the edited reference
+            spec2 = apply_edit(o, spec, ed)
+            if spec2 is not None:
+                out.cls('retraced_after_' + ed['kind'] + '_edit')
+                self.core(out, o, spec2)
+
+    def core(self, out, o, spec):
         ps = GL.parax_sys(spec)
         w = spec['wls'][spec['prim']]
         at, av = spec['ap']['type'], spec['ap']['value']
@@ -57,6 +69,7 @@ class C05(Check):
         near_parabola = any(s['type'] == 'standard' and s['R'] != GL.INF and abs(1 + s['k']) < 0.05
                             for s in spec['surfs'])
         Rmax = max([abs(GL.fl(s['R'])) for s in spec['surfs'] if s['R'] != GL.INF] + [1.0])
+        Rmin = min([abs(GL.fl(s['R'])) for s in spec['surfs'] if s['R'] != GL.INF] + [Lsc])
         if near_parabola:
             out.cls('near_parabolic_surface')
         epl = float(ps.EPL())
@@ -65,7 +78,7 @@ class C05(Check):
 
         def run(kind, ref_y, ref_u, scale_fn, trace_args):
             nonlocal nt
-            dy, du, valid = [], [], []
+            dy, du, valid, cancel = [], [], [], []
             for e in EPS:
                 Hy, Py = trace_args(e)
                 o.trace_generic(0.0, Hy, 0.0, Py, w)
@@ -74,6 +87,19 @@ class C05(Check):
                 M = np.array([np.ravel(s.M)[0] for s in sg.surfaces[1:]], dtype=float)
                 N = np.array([np.ravel(s.N)[0] for s in sg.surfaces[1:]], dtype=float)
                 s_ = scale_fn(e)
+                # size of the conic-root cancellation (finding C05-parabola-cancellation) for this ray: the root
+                # (-b - sqrt(b^2-4ac))/(2a) with a = c (L^2+M^2+(1+k)N^2) loses ~ 1e-15/|a| in the distance along the ray
+                terr = np.zeros(len(y))
+                if near_parabola:
+                    acc = 0.0
+                    for k_, q in enumerate(spec['surfs']):
+                        if q['type'] == 'standard' and q['R'] != GL.INF and abs(1 + q['k']) < 0.05:
+                            Lp, Mp, Np = [float(np.ravel(getattr(sg.surfaces[k_], nm))[0]) for nm in ('L', 'M', 'N')]
+                            a_dir = abs(Lp ** 2 + Mp ** 2 + (1 + q['k']) * Np ** 2) / abs(GL.fl(q['R']))
+                            if a_dir > 0 and math.isfinite(a_dir):
+                                acc += 1e-15 / a_dir
+                        terr[k_:] = acc
+                cancel.append(terr)
                 with np.errstate(all='ignore'):
                     dy.append(y / s_ - ref_y)
                     du.append(M / N / s_ - ref_u)
@@ -99,6 +125,9 @@ class C05(Check):
                         # conic intersection (grows like 1/eps^2 as rays become axial)
                         out.region('C05-parabola-cancellation')
                         floor = floor + 1e-12 * max(Fs, Rmax) / EPS[i] ** 2
+                        # a point displaced by terr along the ray: heights move by |slope| terr, slopes by |c| |slope| terr
+                        lever = 10 * (usc if name == 'y' else usc * max(1.0, Lsc / Rmin))
+                        floor = floor + cancel[i] * lever
                     bound = 4 * Kc * EPS[i] ** 2 + floor
                     bad = np.abs(d[i]) > bound
                     out.expect('%s_%s_quadratic' % (kind, name), not np.any(bad), eps=EPS[i],
